@@ -257,7 +257,7 @@ func verifC16text(alpha []rune, name string, maxLen int) string {
 // blank, 5 object literal text (no qualifier, language tag, datatype), 6 object
 // literal language tag, 7 object literal datatype IRI, 8 label IRI, 9 label
 // blank, 10 fixed statement without label.
-func verifC16roundTrip(what int, alpha []rune) {
+func verifC16roundTrip(what int, alpha []rune, iriPrefixes []string) {
 	verifC16stubs()
 	verifStubFunc("fmt.Sprintf", verifC16sprintf)
 	maxLen := verifParam("nqtext", 2)
@@ -273,9 +273,7 @@ func verifC16roundTrip(what int, alpha []rune) {
 	switch what {
 	case 0, 2, 3, 8:
 		text = verifC16text(alpha, "t", maxLen)
-		if verifChoose("scheme", 0, 1) == 1 {
-			text = "s:" + text
-		}
+		text = iriPrefixes[verifChoose("scheme", 0, len(iriPrefixes)-1)] + text
 		kind = IRI
 		t, err = NewIRITerm(text)
 	case 1, 4, 9:
@@ -301,9 +299,7 @@ func verifC16roundTrip(what int, alpha []rune) {
 	case 7:
 		text = "x\\y"
 		qual = verifC16text(alpha, "t", maxLen)
-		if verifChoose("scheme", 0, 1) == 1 {
-			qual = "s:" + qual
-		}
+		qual = iriPrefixes[verifChoose("scheme", 0, len(iriPrefixes)-1)] + qual
 		kind = Literal
 		t, err = NewLiteralTerm(text, qual)
 		if qual == "" {
@@ -374,16 +370,16 @@ func verifC16roundTrip(what int, alpha []rune) {
 // tags over the whole hostile alphabet.
 func VerifC16_NQuadRoundTripBlankLiteral() {
 	whats := []int{1, 4, 9, 5, 6, 10}
-	verifC16roundTrip(whats[verifChoose("what", 0, len(whats)-1)], verifC16hostile)
+	verifC16roundTrip(whats[verifChoose("what", 0, len(whats)-1)], verifC16hostile, nil)
 	verifReach("end")
 }
 
 // VerifC16_NQuadRoundTripIRI: IRIs (subject, predicate, object, label, literal
-// datatype) over the hostile alphabet minus the characters that are not IRI
+// datatype; with and without the scheme prefix "s:") over the hostile alphabet minus the characters that are not IRI
 // characters at all (controls, space, < > " \ ^ ` { | }).
 func VerifC16_NQuadRoundTripIRI() {
 	whats := []int{0, 2, 3, 8, 7}
-	verifC16roundTrip(whats[verifChoose("what", 0, len(whats)-1)], verifC16iriSafe)
+	verifC16roundTrip(whats[verifChoose("what", 0, len(whats)-1)], verifC16iriSafe, []string{"", "s:"})
 	verifReach("end")
 }
 
@@ -393,7 +389,21 @@ func VerifC16_NQuadRoundTripIRI() {
 // accepts. Not part of the check spec.
 func VerifC16_NQuadRoundTripIRIHostile() {
 	whats := []int{0, 2, 3, 8, 7}
-	verifC16roundTrip(whats[verifChoose("what", 0, len(whats)-1)], verifC16hostile)
+	verifC16roundTrip(whats[verifChoose("what", 0, len(whats)-1)], verifC16hostile, []string{"", "s:"})
+	verifReach("end")
+}
+
+// VerifC16_NQuadRoundTripIRIAuthority: IRIs "s://" + text over the IRI-safe
+// alphabet, i.e. the text is the authority component. OPEN VIOLATION
+// (notes/C16_text.md V6): a character that the printer writes as \uXXXX
+// (U+0085, U+E000, U+10FFFF) makes ParseNQuad fail with "invalid character
+// \"\\\" in host name": the parser hands the still escaped IRI to url.Parse. The
+// same happens for the valid N-Quad <http://ex\u00e9mple.org/a> <a:p> <a:o> .
+// (VerifC16_NQuadRoundTripIRI reaches it at nqtext=3 with "s:" + "//x".) Not part
+// of the check spec.
+func VerifC16_NQuadRoundTripIRIAuthority() {
+	whats := []int{0, 2, 3, 8, 7}
+	verifC16roundTrip(whats[verifChoose("what", 0, len(whats)-1)], verifC16iriSafe, []string{"s://"})
 	verifReach("end")
 }
 
@@ -465,12 +475,12 @@ func VerifC16_TermPartsTotal() {
 }
 
 // VerifC16_LabelLangCheckTotal: checkLabelText on every rune string and
-// checkLangText on every byte string of length 0..nqshort never fault; a label
+// checkLangText on every byte string of length 0..nqlabel never fault; a label
 // is accepted exactly when "_:"+label is accepted as a blank term by the term
 // splitter (the two machines implement the same production).
 func VerifC16_LabelLangCheckTotal() {
 	alpha := verifC16alpha()
-	L := verifChoose("len", 0, verifParam("nqshort", 3))
+	L := verifChoose("len", 0, verifParam("nqlabel", 2))
 	if verifChoose("which", 0, 1) == 0 {
 		label := verifC16symRunes("", alpha, "r", L)
 		var err error
